@@ -141,6 +141,105 @@ def find_headers(repo, extra):
     return [d]
 
 
+
+KBITS = {  # Linux values (asm-generic/poll.h, sys/epoll.h): trusted constants
+    "POLLIN": 1, "POLLPRI": 2, "POLLOUT": 4, "POLLERR": 8, "POLLHUP": 16, "POLLNVAL": 32, "POLLRDNORM": 64,
+    "POLLRDBAND": 128, "POLLWRNORM": 256, "POLLWRBAND": 512, "POLLMSG": 1024, "POLLRDHUP": 8192,
+    "EPOLLIN": 1, "EPOLLPRI": 2, "EPOLLOUT": 4, "EPOLLERR": 8, "EPOLLHUP": 16, "EPOLLRDNORM": 64, "EPOLLRDBAND": 128,
+    "EPOLLWRNORM": 256, "EPOLLWRBAND": 512, "EPOLLMSG": 1024, "EPOLLRDHUP": 8192,
+}
+
+
+def mask_value(expr, names):
+    expr = expr.strip()
+    if expr.startswith("(") and expr.endswith(")"):
+        expr = expr[1:-1]
+    v = 0
+    for part in expr.split("|"):
+        part = part.strip()
+        if part not in names:
+            raise Untranslatable("reactor event table: unknown constant " + part)
+        v |= names[part]
+    return v
+
+
+def event_table(body, var, out, src_names, dst_names, what):
+    """body of `int f(int event){ int out=0; if(event & MASK) out|=CONST; ... return out; }` -> [(mask, bits)]"""
+    body = body.strip()
+    m = re.fullmatch(r"int\s+" + out + r"\s*=\s*0\s*;(.*)return\s+" + out + r"\s*;", body, re.S)
+    if not m:
+        raise Untranslatable(what + ": shape (int x=0; if(...) x|=...; return x;)")
+    rows = []
+    rest = m.group(1)
+    pos = 0
+    rx = re.compile(r"\s*if\s*\(\s*" + var + r"\s*&\s*(\([^()]*\)|[A-Za-z_:]+)\s*\)\s*" + out + r"\s*\|=\s*([A-Za-z_:]+)\s*;")
+    while True:
+        mm = rx.match(rest, pos)
+        if not mm:
+            break
+        rows.append((mask_value(mm.group(1), src_names), mask_value(mm.group(2), dst_names)))
+        pos = mm.end()
+    if rest[pos:].strip() or not rows:
+        raise Untranslatable(what + ": statement not understood: " + rest[pos:].strip()[:80])
+    return rows
+
+
+def class_body(src, name):
+    return function_body(src, r"class\s+" + name + r"\b[^{;]*\{")
+
+
+def reactor_tables(repo, w):
+    types = strip_c_comments(open(os.path.join(repo, "booster/booster/aio/types.h")).read())
+    user = {}
+    for nm in ("in", "out", "err"):
+        m = re.search(r"static\s+const\s+int\s+" + nm + r"\s*=\s*1\s*<<\s*(\d+)\s*;", types)
+        if not m:
+            raise Untranslatable("io_events::" + nm)
+        user["reactor::" + nm] = 1 << int(m.group(1))
+    rsrc = strip_c_comments(open(os.path.join(repo, "booster/lib/aio/src/reactor.cpp")).read())
+    base = class_body(rsrc, "base_poll_reactor")
+    ep = class_body(rsrc, "epoll_reactor")
+    pl = class_body(rsrc, "poll_reactor")
+    sel = class_body(rsrc, "select_reactor")
+    tabs = {}
+    tabs["pollFromUser"] = event_table(function_body(base, r"int\s+to_poll_events\s*\(\s*int\s+event\s*\)\s*\{"), "event", "pe", user, KBITS, "base_poll_reactor::to_poll_events")
+    tabs["pollToUser"] = event_table(function_body(base, r"int\s+to_user_events\s*\(\s*int\s+event\s*\)\s*\{"), "event", "ue", KBITS, user, "base_poll_reactor::to_user_events")
+    tabs["epollFromUser"] = event_table(function_body(ep, r"int\s+to_poll_events\s*\(\s*int\s+event\s*\)\s*\{"), "event", "pe", user, KBITS, "epoll_reactor::to_poll_events")
+    tabs["epollToUser"] = event_table(function_body(ep, r"int\s+to_user_events\s*\(\s*int\s+event\s*\)\s*\{"), "event", "ue", KBITS, user, "epoll_reactor::to_user_events")
+    # the poll functions use these tables on what the kernel returned, and on nothing else
+    if not re.search(r"events\[read\]\.events\s*=\s*to_user_events\(fds\[i\]\.events\)\s*;\s*events\[read\]\.fd\s*=\s*fds\[i\]\.data\.fd\s*;", ep):
+        raise Untranslatable("epoll_reactor::poll: events[read].events = to_user_events(fds[i].events)")
+    if not re.search(r"write_flag\(fd,EPOLL_CTL_ADD,to_poll_events\(flags\),error\)", ep) or not re.search(r"write_flag\(fd,EPOLL_CTL_MOD,to_poll_events\(flags\),error\)", ep):
+        raise Untranslatable("epoll_reactor::select: registration through to_poll_events")
+    if not re.search(r"if\s*\(\s*pollfds_\[i\]\.revents\s*==\s*POLLNVAL\s*\)\s*\{\s*remove\(pollfds_\[i\]\.fd\)\s*;\s*count\s*--\s*;\s*continue\s*;\s*\}\s*"
+                     r"if\s*\(\s*pollfds_\[i\]\.revents\s*!=\s*0\s*\)\s*\{\s*events\[read\]\.events\s*=\s*to_user_events\(pollfds_\[i\]\.revents\)\s*;", pl):
+        raise Untranslatable("poll_reactor::poll: POLLNVAL removal / to_user_events(revents)")
+    if not re.search(r"entry\(fd\)\.events\s*=\s*to_poll_events\(flags\)\s*;", pl):
+        raise Untranslatable("poll_reactor::select: registration through to_poll_events")
+    # select(): fd sets; kernel report bits r=1 w=2 e=4
+    selk = {"r": 1, "w": 2, "e": 4}
+    if not re.search(r"if\s*\(\s*flags\s*&\s*reactor::in\s*\)\s*FD_SET\(fd,&rd\)\s*;\s*if\s*\(\s*flags\s*&\s*reactor::out\s*\)\s*FD_SET\(fd,&wr\)\s*;\s*FD_SET\(fd,&er\)\s*;", sel):
+        raise Untranslatable("select_reactor::poll: FD_SET by requested flags")
+    m = re.search(r"bool\s+r\s*=\s*FD_ISSET\(fd,&rd\)\s*;.*?bool\s+w\s*=\s*FD_ISSET\(fd,&wr\)\s*;.*?bool\s+e\s*=\s*FD_ISSET\(fd,&er\)\s*;.*?"
+                  r"if\s*\(\s*r\s*\|\|\s*w\s*\|\|\s*e\s*\)\s*\{.*?ev\.events\s*=\s*0\s*;(.*?)count\+\+\s*;\s*\}", sel, re.S)
+    if not m:
+        raise Untranslatable("select_reactor::poll: report shape")
+    rows = re.findall(r"if\s*\(\s*([rwe])\s*\)\s*ev\.events\s*\|=\s*(reactor::\w+)\s*;", m.group(1))
+    if re.sub(r"if\s*\(\s*[rwe]\s*\)\s*ev\.events\s*\|=\s*reactor::\w+\s*;", "", m.group(1)).strip() or not rows:
+        raise Untranslatable("select_reactor::poll: report statements")
+    tabs["selectToUser"] = [(selk[a], user[b]) for a, b in rows]
+    tabs["selectFromUser"] = [(user["reactor::in"], 1), (user["reactor::out"], 2)]
+    w("/-- reactor::in / out / err (booster/aio/types.h) -/")
+    w(f"def userIn : Nat := {user['reactor::in']}")
+    w(f"def userOut : Nat := {user['reactor::out']}")
+    w(f"def userErr : Nat := {user['reactor::err']}")
+    w("/-- event translation tables of reactor.cpp: (mask tested, bits set).  Kernel bits: Linux POLL*/EPOLL* values; for")
+    w("    select the kernel's report is r=1 (in the read set) w=2 e=4 -/")
+    for k in ("epollToUser", "epollFromUser", "pollToUser", "pollFromUser", "selectToUser", "selectFromUser"):
+        w(f"def {k} : List (Nat × Nat) := [" + ", ".join(f"({a}, {b})" for a, b in tabs[k]) + "]")
+    w("")
+
+
 def main(repo, lean, extra=None):
     io_path = os.path.join(repo, "booster/lib/aio/src/io_service.cpp")
     tp_path = os.path.join(repo, "src/thread_pool.cpp")
@@ -356,6 +455,7 @@ def main(repo, lean, extra=None):
     if not re.search(r"shut_down_\s*=\s*true\s*;\s*cond_\.notify_all\(\)\s*;", sp):
         raise Untranslatable("thread_pool::stop: shape")
     w("def poolShapesChecked : Bool := true\n")
+    reactor_tables(repo, w)
     w("end Cppcms.C17.Gen")
     path = os.path.join(lean, "Cppcms", "C17", "Gen.lean")
     write_if_changed(path, "\n".join(o) + "\n")
